@@ -421,6 +421,18 @@ Theorem C11_reload_disjoint :
 Proof. exact reload_disjoint_hist. Qed.
 Print Assumptions C11_reload_disjoint.
 
+Theorem C11_reload_independent :
+  forall ops vi s',
+    let s := run ops init in
+    step s (OReload vi) = (s', RNew) ->
+    forall u id, In u (vecs s) -> In id (reach u) ->
+      (forall name a,
+          nth_error (heap (fst (step s' (OFieldOp (length (vecs s)) name a)))) id = nth_error (heap s) id) /\
+      (forall name vals,
+          nth_error (heap (fst (step s' (OSetFlattened (length (vecs s)) name vals)))) id = nth_error (heap s) id).
+Proof. exact reload_independent_hist. Qed.
+Print Assumptions C11_reload_independent.
+
 (* ------------------------------------------------------------------------------------------
    Non-vacuity of 8-11 on the example state (vector 0: shape (3,), fields 0,1; vector 1: (2,2,2),
    field 7; vector 2: (2,2), field 0, no cell set). *)
